@@ -404,7 +404,8 @@ func (e *c01env) refuse(s *ref.FrameSpec) {
 // all after the stream is exhausted: a returned frame must not change afterwards.
 func (e *c01env) stream(r *vh.RNG, n int) {
 	var specs []*ref.FrameSpec
-	var img []byte
+	var img, readImg []byte
+	noise, rejects := 0, 0
 	e.w.reset()
 	for i := 0; i < n; i++ {
 		s := c01random(r, e.cfg)
@@ -423,7 +424,24 @@ func (e *c01env) stream(r *vh.RNG, n int) {
 		}
 		specs = append(specs, s)
 		img = append(img, ref.Serialize(s)...)
+		if e.drw != nil && len(e.known) > 0 && r.Chance(1, 3) {
+			// what the reader sees between two valid frames: a complete frame of a dialect message whose checksum is wrong (read to
+			// its end, then refused), of either version, signed or not whatever the stream's own frames are
+			mi := e.known[r.Intn(len(e.known))]
+			bad := c01random(r, c01cfg{version: 1 + r.Intn(2), signed: r.Chance(2, 3)})
+			bad.MsgID = mi.Msg.GetID()
+			if bad.Version == 2 || bad.MsgID <= 255 {
+				bad.Checksum = ref.ChecksumOfWire(ref.Serialize(bad), mi.Layout.CRCExtra) ^ uint16(1+r.Intn(0xFFFF))
+				readImg = append(readImg, img[len(readImg)-noise:]...)
+				b := ref.Serialize(bad)
+				readImg = append(readImg, b...)
+				noise += len(b)
+				rejects++
+			}
+		}
 	}
+	readImg = append(readImg, img[len(readImg)-noise:]...)
+	e.rep.Count("stream_refused_frames_between_valid_ones", rejects)
 	e.rep.Eval(n)
 	e.rep.Count("stream_frames", n)
 	e.rep.Distinct(img)
@@ -433,15 +451,20 @@ func (e *c01env) stream(r *vh.RNG, n int) {
 		return
 	}
 	guard(e.rep, c01key(e.cfg, "stream", "panic"), func() interface{} { return vh.Hex(img) }, func() {
-		rd := &frame.Reader{ByteReader: &chunkReader{data: img, r: r.Fork(), max: 700}, DialectRW: e.drw}
+		rd := &frame.Reader{ByteReader: &chunkReader{data: readImg, r: r.Fork(), max: 700}, DialectRW: e.drw}
 		_ = rd.Initialize()
 		var got []frame.Frame
-		for range specs {
+		refusals := 0
+		for len(got) < len(specs) {
 			fr, err := rd.Read()
 			if err != nil {
-				e.rep.Violation(c01key(e.cfg, "stream", "roundtrip"), "reader rejected a frame of a valid stream: "+err.Error(),
-					map[string]interface{}{"cfg": e.cfg.String(), "index": len(got), "stream": vh.Hex(img)})
-				return
+				refusals++
+				if refusals > rejects {
+					e.rep.Violation(c01key(e.cfg, "stream", "roundtrip"), "reader rejected a frame of a valid stream: "+err.Error(),
+						map[string]interface{}{"cfg": e.cfg.String(), "index": len(got), "stream": vh.Hex(readImg)})
+					return
+				}
+				continue
 			}
 			got = append(got, fr)
 		}
